@@ -169,6 +169,10 @@ def elem_ref(eng, st, s, idx):
         return VRef(b[1], b[2] + (("ei", pos),), s.mut)
     cell = ("elem", b, pos.key())
     if cell not in st.cells:
+        if s.elem in (None, eng.u8_ty()):
+            if not hasattr(eng, "byte_syms"):
+                eng.byte_syms = {}
+            eng.byte_syms["byte(%r@%r)" % (b, pos)] = (b, pos)
         st.cells[cell] = eng.named_int(eng.u8_ty(), "byte(%r@%r)" % (b, pos), bits_sym=True) if s.elem in (None, eng.u8_ty()) else VUnknown(s.elem, "elem(%r@%r)" % (b, pos))
     return VRef(cell, (), s.mut)
 
@@ -589,6 +593,15 @@ def try_into(eng, st, site, func, target, args, dty):
         if eng.add(s_ok, c_eq(s.len, Lin.const(n))):
             eng.counter += 1
             arr = VArr(n, None, eng.fresh("arr"), ("slice", slice_desc(eng, s_ok, s)))
+            tgtv = s_ok.cells.get(s.base) if not isinstance(s.base, tuple) or s.base[0] in ("heap", "obj") else None
+            if isinstance(tgtv, VVec) and tgtv.segs is None and tgtv.name and n <= 8 and s.start.is_const():
+                # a few octets of an opaque buffer: the same element symbols that indexing the buffer gives
+                es = []
+                for i in range(n):
+                    r = elem_ref(eng, s_ok, s, Lin.const(i))
+                    es.append(eng.load(s_ok, r.cell, r.path))
+                if all(isinstance(e, VInt) for e in es):
+                    arr = VArr(n, tuple(es), arr.name, None)
             # &[T] -> &[T;N] keeps a reference; -> [T;N] copies
             out.append((s_ok, mk_result(eng, dty, True, arr)))
         s_ne = st
@@ -606,7 +619,12 @@ def try_into(eng, st, site, func, target, args, dty):
             out = []
             s_ok = st.fork()
             if eng.add(s_ok, c_le(Lin.const(lo), v.lin)) and eng.add(s_ok, c_le(v.lin, Lin.const(hi))):
-                out.append((s_ok, mk_result(eng, dty, True, VInt(ga[1], v.lin, v.mask, None))))
+                w_, sg_ = eng.int_info(ga[1])
+                bits_ = eng.bits_of(v)
+                nb_ = None
+                if bits_ is not None and not sg_ and not eng.int_info(v.ty)[1]:
+                    nb_ = tuple(bits_[:w_]) + (0,) * max(0, w_ - len(bits_))
+                out.append((s_ok, mk_result(eng, dty, True, VInt(ga[1], v.lin, v.mask, nb_, v.taint))))
             for c in (c_lt(v.lin, Lin.const(lo)), c_lt(Lin.const(hi), v.lin)):
                 s3 = st.fork()
                 if eng.add(s3, c):
@@ -1204,7 +1222,13 @@ def int_try_from(eng, st, site, func, target, args, dty):
     out = []
     s_ok = st.fork()
     if eng.add(s_ok, c_le(Lin.const(lo), v.lin)) and eng.add(s_ok, c_le(v.lin, Lin.const(hi))):
-        out.append((s_ok, mk_result(eng, dty, True, VInt(dst, v.lin, v.mask, None, v.taint))))
+        # the value is unchanged, so is its per-bit provenance (truncated / zero-extended to the new width)
+        w, sg = eng.int_info(dst)
+        bits = eng.bits_of(v)
+        nb = None
+        if bits is not None and not sg and not eng.int_info(v.ty)[1]:
+            nb = tuple(bits[:w]) + (0,) * max(0, w - len(bits))
+        out.append((s_ok, mk_result(eng, dty, True, VInt(dst, v.lin, v.mask, nb, v.taint))))
     for c in (c_lt(v.lin, Lin.const(lo)), c_lt(Lin.const(hi), v.lin)):
         s3 = st.fork()
         if eng.add(s3, c):
